@@ -147,10 +147,18 @@ class FD:
         raise KeyError(key_label)
 
     def key_index(self, n):
+        memo = self.__dict__.setdefault("_ki", {})
+        r = memo.get(id(n), -2)
+        if r != -2:
+            return r
+        r = None
         for i, k in enumerate(self.keys):
             if k.matches(n):
-                return i
-        return None
+                r = i
+                break
+        if isinstance(n, dict) and n.get("ln") is not None or isinstance(n, dict) and n.get("k") == "eref":
+            memo[id(n)] = r      # only persistent fact nodes (not temporaries) are memoised
+        return r
 
     # ---- abstract evaluation ---------------------------------------------
     def aeval(self, n, s):
@@ -672,7 +680,7 @@ class FD:
                 yield (x, "", s)
 
     # ---- exploration -------------------------------------------------------------
-    def run(self, init_states, resume=None):
+    def run(self, init_states, resume=None, stop=None):
         """Build the product graph.
 
         resume(return_state) -> iterable of new entry states (resume edges) or None.
@@ -698,6 +706,8 @@ class FD:
                 if resume:
                     for ns in resume(s) or ():
                         dq.append((self.fn.entry, ns, node, "resume"))
+                continue
+            if stop is not None and stop(bid, s):
                 continue
             for o in outs:
                 for (x, lab, ns) in self.branch(bid, o):
